@@ -1322,10 +1322,13 @@ class _FuncEval:
         body = [b for b in getattr(f.node, "body", []) if not (isinstance(b, ast.Expr) and isinstance(b.value, ast.Constant))] \
             if not isinstance(f.node, ast.Lambda) else []
         expr_wrapper = isinstance(f.node, ast.Lambda) or (len(body) == 1 and isinstance(body[0], ast.Return))
+        # a private helper (leading underscore) with a single unconditional return and no effect is a fragment of its caller: the
+        # premises are about the public functions, so splitting one into private helpers (or merging them) must not matter
+        private_helper = f.name.startswith("_") and not f.name.startswith("__") and not isinstance(f.node, ast.Lambda)
         if f.nested or f.nested_classes:
-            leaf = expr_wrapper = False  # a function that defines local helpers is a unit of its own, analysed as a call
+            leaf = expr_wrapper = private_helper = False  # a function that defines local helpers is a unit of its own
         if (len(live) == 1 and live[0].kind == "ret" and not live[0].cond and not sm.loops and not sm.effects
-                and not sm.unsupported and not sm.trys and (leaf or expr_wrapper)):
+                and not sm.unsupported and not sm.trys and (leaf or expr_wrapper or private_helper)):
             # single-return wrapper: inline the value; its own calls become call records of the caller
             val = live[0].value
             for c in sm.calls:
